@@ -70,22 +70,23 @@ func (l *KUAndEKUInconsistent) multiPurpose(c *x509.Certificate) *lint.LintResul
 	// included extKeyUsage(es).
 	var mp = map[x509.KeyUsage]bool{}
 	for _, extKeyUsage := range c.ExtKeyUsage {
-		var i int
 		if _, ok := eku[extKeyUsage]; !ok {
 			return &lint.LintResult{Status: lint.Pass}
 		}
 		for ku := range eku[extKeyUsage] {
-			// There is nothing to merge for the first EKU.
-			if i > 0 {
-				// We could see this EKU combined with any other EKU so
-				// create that possibility.
-				for mpku := range mp {
-					mp[mpku|ku] = true
-				}
+			// We could see this KeyUsage combined with any combination
+			// authorized so far so create that possibility. The combinations
+			// are collected before they are added: adding to a map while
+			// ranging over it visits an unspecified subset of the new
+			// entries, which made the verdict depend on map iteration order.
+			combined := make([]x509.KeyUsage, 0, len(mp)+1)
+			for mpku := range mp {
+				combined = append(combined, mpku|ku)
 			}
-
-			mp[ku] = true
-			i++
+			combined = append(combined, ku)
+			for _, k := range combined {
+				mp[k] = true
+			}
 		}
 	}
 	if !mp[c.KeyUsage] {
